@@ -253,6 +253,19 @@ class StartStageHandler(
                 synthetic_stages = self.repository.get_synthetic_stages(stage.execution.id, stage.id)
                 has_synthetic = synthetic_stages is not None and len(synthetic_stages) > 0
 
+                # A stage whose tasks were defined up front looks "planned" even
+                # when the claimer died (or lost its plan commit) between claim
+                # and plan: the claim stamped start_time, no task ever left
+                # NOT_STARTED and the plan's StartTask was never queued. While a planned stage waits for its first
+                # task, that StartTask is in the queue, so its absence tells the
+                # two apart.
+                if has_tasks and not has_synthetic and stage.start_time is not None:
+                    never_started = all(
+                        t.status == WorkflowStatus.NOT_STARTED and t.start_time is None for t in stage.tasks
+                    )
+                    if never_started and not self.queue.has_pending_message_for_task(stage.tasks[0].id):
+                        has_tasks = False
+
                 if not has_tasks and not has_synthetic:
                     logger.warning(
                         "Detected Zombie Stage %s (%s): RUNNING but no tasks/synthetic stages. Resuming planning.",
@@ -538,11 +551,23 @@ class StartStageHandler(
                 for msg in messages_to_push:
                     txn.push_message(msg)
         except ConcurrencyError:
-            # This shouldn't happen since we already claimed the stage,
-            # but handle it gracefully just in case.
+            # Another writer (a buffered signal, join bookkeeping) touched the
+            # claimed row between the claim and the plan commit. The stage is
+            # RUNNING but nothing was planned or queued: ask for a re-plan, which
+            # the zombie detection above performs on fresh data.
             logger.warning(
-                "Unexpected ConcurrencyError after claiming stage %s",
+                "ConcurrencyError after claiming stage %s, re-queuing StartStage for re-plan",
                 stage.name,
+            )
+            retry_count = getattr(message, "retry_count", 0) or 0
+            self.queue.push(
+                StartStage(
+                    execution_type=message.execution_type,
+                    execution_id=message.execution_id,
+                    stage_id=message.stage_id,
+                    retry_count=retry_count + 1,
+                ),
+                self.retry_delay,
             )
             return
 
